@@ -16,6 +16,9 @@ pub struct DifferenceMut<'a, P, L, R> {
     table_l: &'a Table<P, L>,
     table_r: &'a Table<P, R>,
     nodes: Vec<(DifferenceIndex, Option<(&'a P, &'a R)>)>,
+    // The struct hands out `&'a mut` references to values. Make the auto traits (`Send`) behave as
+    // for `&'a mut` references, rather than as for the shared reference to the table.
+    _marker: std::marker::PhantomData<&'a mut L>,
 }
 
 impl<'a, P, L, R> DifferenceMut<'a, P, L, R> {
@@ -31,6 +34,7 @@ impl<'a, P, L, R> DifferenceMut<'a, P, L, R> {
             table_l,
             table_r,
             nodes,
+            _marker: std::marker::PhantomData,
         }
     }
 }
@@ -49,6 +53,9 @@ pub struct CoveringDifferenceMut<'a, P, L, R> {
     table_l: &'a Table<P, L>,
     table_r: &'a Table<P, R>,
     nodes: Vec<DifferenceIndex>,
+    // The struct hands out `&'a mut` references to values. Make the auto traits (`Send`) behave as
+    // for `&'a mut` references, rather than as for the shared reference to the table.
+    _marker: std::marker::PhantomData<&'a mut L>,
 }
 
 impl<'a, P, L, R> CoveringDifferenceMut<'a, P, L, R> {
@@ -64,6 +71,7 @@ impl<'a, P, L, R> CoveringDifferenceMut<'a, P, L, R> {
             table_l,
             table_r,
             nodes,
+            _marker: std::marker::PhantomData,
         }
     }
 }
